@@ -322,6 +322,11 @@ class Unit:
                     self._log("R12-struct-slice", ty["name"], len(dropped), "dropped fields: " + ",".join(dropped))
             elif kind in ("const", "static"):
                 text = "pub " + re.sub(r"^\s*pub(\([^)]*\))?\s+", "", X._strip_comments(src)).strip() + "\n"
+            elif ty.get("keep") is not None:
+                text, dropped = X.r12_enum(src, ty.get("keep"))
+                if dropped:
+                    self.dropped.append(dict(enum=ty["name"], variants=dropped))
+                    self._log("R12-struct-slice", ty["name"], len(dropped), "dropped variants: " + ",".join(dropped))
             else:
                 text = X.r12_enum(src)
             text = self.rewrite_common(text, ty["name"])
